@@ -9,8 +9,8 @@ lean/CssVerif/Gen/C18Tables.lean
 * the replace chain of helper.string    cssutils/helper.py
 * the source text + flags of the regular expressions the model transcribes by hand (pinned: a change
   breaks an `example ... := by decide` in Props/C18.lean, i.e. an obligation, never silently)
-* the white-space code points of `str.isspace` / `\\s` of the running interpreter (the only table that
-  does not come from the repository: it is a fact about CPython)
+* the white-space code points of `str.isspace` / `\\s` and `sys.get_int_max_str_digits()` of the running
+  interpreter (the only tables that do not come from the repository: they are facts about CPython)
 
 Anything of an unexpected shape raises TranslateError.
 """
@@ -258,6 +258,23 @@ def generate(repo):
     L.append('')
     L.append('/-- code points with `str.isspace()` (= regex `\\s` on str) in the running CPython -/')
     L.append('def spaceChars : List Nat := [%s]' % ', '.join(str(c) for c in sp))
+    L.append('')
+    # the independent copy of the CSS3 colour table kept with the harness (NOT from the repository)
+    import importlib.util
+    spec = importlib.util.spec_from_file_location(
+        'c18_css3colors', os.path.join(os.path.dirname(os.path.dirname(os.path.abspath(__file__))), 'harness', 'c18_css3colors.py'))
+    mod = importlib.util.module_from_spec(spec)
+    spec.loader.exec_module(mod)
+    t = mod.table()
+    L.append('/-- CSS Color Level 3 keyword table, from tools/harness/c18_css3colors.py (independent of the repository): '
+             'name, r, g, b, alpha (0 or 1) -/')
+    L.append('def css3Colors : List (List Nat × Nat × Nat × Nat × Nat) := [')
+    L.append(',\n'.join('  (%s, %d, %d, %d, %s)' % (_cps(n), v[0], v[1], v[2], v[3]) for n, v in sorted(t.items())))
+    L.append(']')
+    L.append('')
+    import sys
+    L.append('/-- `sys.get_int_max_str_digits()` of the running CPython: `int(str)` raises ValueError for more digits -/')
+    L.append('def maxStrDigits : Nat := %d' % (sys.get_int_max_str_digits() if hasattr(sys, 'get_int_max_str_digits') else 0))
     L.append('')
     L.append('end CssVerif.Gen.C18')
     return '\n'.join(L) + '\n'
